@@ -359,7 +359,9 @@ func numfCase(r *Run, line string, x *V, steps []numStep) string {
 			// (from 2^53 on strconv's shortest digits are zero-padded: 108086391056891900 for …904)
 			plain := want.Num().String()
 			f, perr := strconv.ParseFloat(text, 64)
-			same := perr == nil && new(big.Rat).SetFloat64(f).Cmp(want) == 0 && plainInteger.MatchString(text)
+			// the digits of the exact value (an integer result beyond 2^53 is a Go int, printed exactly), or digits
+			// that denote the same float64
+			same := text == plain || (perr == nil && new(big.Rat).SetFloat64(f).Cmp(want) == 0 && plainInteger.MatchString(text))
 			if !same && !(want.Sign() == 0 && text == "-0") && want.Num().CmpAbs(tenTo21) < 0 {
 				r.Violate("C17", "whole-result-not-printed-plainly", line, fmt.Sprintf("%s = %s printed as %q", src, plain, text))
 			}
